@@ -72,6 +72,10 @@ class _SSHAuthorizedKeyEntry(OptionsParser):
         try:
             self.cert = cast(SSHX509Certificate, import_certificate(line))
 
+            if 'cert-authority' in self.options and not self.cert.is_x509:
+                raise KeyImportError('OpenSSH certificates not allowed '
+                                     'in cert-authority entries')
+
             if ('cert-authority' in self.options and
                     self.cert.subject != self.cert.issuer):
                 raise ValueError('X.509 cert-authority entries must '
